@@ -88,7 +88,8 @@ CHECKS["C09"] = {
             "find(telegram) == that definition, decode(store(telegram, answer)) == supplied and received values "
             "(compared as name=value multiset), and every single field decoded alone by index (master part first) "
             "and by name (+ index among equal names) gives exactly that field's value; a loaded plain definition "
-            "must not have more than MAX_POS slave data bytes; every definition that is valid by the documented "
+            "must not have more than MAX_POS slave data bytes; a chained definition whose explicit part lengths add up to 1, 2 or 12 "
+            "bytes less than its fields need must be rejected when loaded; every definition that is valid by the documented "
             "format must load (C09/universe-shrunk; known loader exceptions - explicit chain lengths with a common ID "
             "prefix, bit fields in chains - stay counted); chained: every part carries its ID and its defined number of data "
             "bytes, the parts in order reproduce the encoded value, and after all parts arrived within a small gap "
